@@ -73,6 +73,20 @@ def _extract_play(wd):
     return extract_play.emit(wd, [PLAY])
 
 
+INT_CVT = "(nondet_unsigned() %% 8 == 0 ? opn2_cvtS8 : nondet_unsigned() %% 8 == 1 ? opn2_cvtU8 : nondet_unsigned() %% 8 == 2 ? opn2_cvtS16 : nondet_unsigned() %% 8 == 3 ? opn2_cvtU16 : nondet_unsigned() %% 8 == 4 ? opn2_cvtS24 : nondet_unsigned() %% 8 == 5 ? opn2_cvtU24 : nondet_unsigned() %% 8 == 6 ? opn2_cvtS32 : opn2_cvtU32)".replace("%%", "%")
+RELOCATE = (r"\)\s*\{\s*\n\s*VERIF_LOOP\((\w+)\)", r")\n    VERIF_LOOP(\1)\n    {")   # R13: a marker that is the first line of a loop body goes in front of the body
+
+
+def _extract_copy(fn, t):
+    def f(wd):
+        sp = _specs(False)
+        ret = t if t in ("float", "double") else "int32_t"
+        sp.append(dict(file="src/opnmidi.cpp", name=fn, cls=None, rename="%s_%s" % (fn, t), must=["R2"] if fn != "CopySamplesRaw" else [], static=False,
+                       post=[(r"\bDst\b", t), RELOCATE, (r"\(i \* sampleOffset\)", "verif_mul(i, sampleOffset)")], sig_post=[(r"\bRet\b", ret), (r"\(\s*&\s*transform\s*\)", "(*transform)")] if fn != "CopySamplesRaw" else []))
+        return extract_play.emit(wd, sp)
+    return f
+
+
 def groups(tier):
     gs = []
     for n in CVT + ["opn2_cvtReal_float", "opn2_cvtReal_double"]:
@@ -83,6 +97,21 @@ def groups(tier):
                     replace=["%s_%s" % i for i in INST], required=[r"SEND"], funcs=["SendStereoAudio"], object_bits=9,
                     checks=["--bounds-check", "--pointer-check", "--div-by-zero-check", "--signed-overflow-check", "--undefined-shift-check", "--no-malloc-may-fail", "--conversion-check"],
                     note="lemma harness over the real body with the CopySamples instantiations replaced by argument-checking contracts"))
+    gs.append(Group("copy_address_product_lemma", "harness/copy_h.c", "h_mul", enforce="verif_mul", backend="cvc5-bvint", extract=_extract(False),
+                    defines=["COPY_MUL_LEMMA", "COPY_FN=unused_fn", "COPY_DST=int32_t", "COPY_RET=int32_t", "COPY_RAW=1", "COPY_INTERLEAVED=0"], required=[r"postcondition"],
+                    funcs=["verif_mul (outlined address product i * sampleOffset of the CopySamples loops, rule R14)"], timeout=300,
+                    note="pure arithmetic: the product and its order relative to the ghost products, for every index < 512 and every 32-bit stride; SMT back end cvc5 with bit-vectors translated to integers"))
+    for fn, t in INST:
+        for lay, chk, tag in ((0, 7, "planar"), (1, 1, "interleaved_left_value"), (1, 2, "interleaved_right_value"), (1, 4, "interleaved_guard_bytes")):
+            raw = fn == "CopySamplesRaw"; ret = t if t in ("float", "double") else "int32_t"
+            gs.append(Group("copy_%s_%s_%s" % (fn, t, tag), "harness/copy_h.c", "h_copy", enforce="%s_%s" % (fn, t), loops=True, replace=["verif_mul"],
+                            defines=["COPY_FN=%s_%s" % (fn, t), "COPY_DST=" + t, "COPY_RET=" + ret, "COPY_RAW=%d" % raw, "COPY_INTERLEAVED=%d" % lay, "COPY_CHECK=%d" % chk,
+                                     "COPY_SIZE_BITS=%d" % (42 if tier == "thorough" else 16)], backend="cadical",
+                            extract=_extract_copy(fn, t), required=[r"postcondition", r"loop_invariant_step", r"decreases|variant"], funcs=["%s<%s>" % (fn, t)],
+                            object_bits=8, timeout=1800 if tier == "thorough" else 900,
+                            assumptions=["caller buffers of at most %s (quick tier: 64 KiB, thorough tier: 4 TiB); at most 512 frames per call (established by both callers, see the generate/play groups)" % ("4 TiB" if tier == "thorough" else "64 KiB"),
+                                         "the transform argument is an arbitrary deterministic integer-valued function (uninterpreted)"],
+                            note="loop contract (every frame count up to the period size 512, every 32-bit stride, every offset): value of a ghost frame, ghost guard byte in front of / between / behind the containers unchanged, termination; address product by contract (R14)"))
     gs.append(Group("generate_format_contract", "harness/audio_h.c", "h_opn2_generateFormat", defines=["WITH_GENERATE"], extract=_extract_gen, enforce="opn2_generateFormat",
                     replace=["chip_generate32", "chip_generateAndMix32", "SendStereoAudio_c", "TickIterators"], loops=True, object_bits=9,
                     pre_unwindset="opn2_generateFormat.0:6", flags=["--conversion-check", "--float-overflow-check", "--nan-check"],
